@@ -3,7 +3,7 @@
 # (never in /repo): suite still passes, demo fails with / passes without the change, then runs the
 # property's quick check against the patched tree (VERIF_REPO) and records everything under seeded/.
 P=$1; D=$2; NAME=$3
-WT=/tmp/wt_eval_$NAME
+WT=/tmp/wt_eval_${P}_$NAME
 OUT=/verif/seeded/${P}_$NAME
 git -C /repo worktree remove --force $WT 2>/dev/null
 git -C /repo worktree add -q --detach $WT HEAD || exit 9
@@ -15,7 +15,7 @@ SUITE=$(PYTHONPATH=$WT timeout 1800 /venv/bin/python -m pytest -q -p no:cachepro
 rm -f $WT/bridgepoint/__oal_parsetab.py $WT/bridgepoint/__oal_lextab.py $WT/xtuml/__xtuml_parsetab.py $WT/xtuml/__xtuml_lextab.py   # demos regenerate the PLY tables from the patched grammar
 MUT_DEMO=$(PYTHONPATH=$WT timeout 600 /venv/bin/python $D/demo.py >/dev/null 2>&1; echo $?)
 cd /verif
-VERIF_REPO=$WT VERIF_OUT=/tmp/seedout_$NAME VERIF_JOBS=${VERIF_JOBS:-8} ./check $P --tier quick > $OUT/check_quick.log 2>&1; RC=$?
+VERIF_REPO=$WT VERIF_OUT=/tmp/seedout_${P}_$NAME VERIF_JOBS=${VERIF_JOBS:-8} ./check $P --tier quick > $OUT/check_quick.log 2>&1; RC=$?
 cp $D/patch.diff $OUT/patch.diff; cp $D/demo.py $OUT/demo.py; cp $D/notes.md $OUT/notes.md 2>/dev/null
 NV=$(grep -c "^VIOLATION" $OUT/check_quick.log)
 python3 - "$P" "$NAME" "$BASE_DEMO" "$MUT_DEMO" "$SUITE" "$RC" "$NV" "$OUT" <<'PY'
@@ -36,4 +36,4 @@ json.dump(meta,open(out+'/meta.json','w'),indent=1)
 print(p,name,'valid' if meta['confirmed_valid'] else 'INVALID','DETECTED' if meta['detected'] else 'missed', suite)
 PY
 git -C /repo worktree remove --force $WT
-rm -rf /tmp/seedout_$NAME
+rm -rf /tmp/seedout_${P}_$NAME
